@@ -23,6 +23,12 @@ namespace Anonymongo.Go
 
 abbrev Bytes := List UInt8
 
+/-- what `os.Stat` returns, as far as `FileExists` looks at it -/
+inductive StatRes where
+  | notExist            -- an error for which `os.IsNotExist` holds; the FileInfo is nil
+  | otherErr            -- any other error (ENOTDIR, EACCES on a parent, …); the FileInfo is nil
+  | ok (isDir : Bool)
+
 /-- the package-level option variables of anonymizer.go, one field each, plus the two library calls
     `redactString` makes (`Encrypt` of encryption.go — Tink — and `base64.StdEncoding.EncodeToString`) -/
 structure Globals where
@@ -41,6 +47,8 @@ structure Globals where
   b64dec : Bytes → Option Bytes
   /-- `os.WriteFile path content perm` as `WriteKeyToFile` sees it: `true` = the error return -/
   WriteFile : Str → Bytes → Int → Bool
+  /-- `os.Stat` as `FileExists` sees it -/
+  Stat : Str → StatRes
   /-- the `--redactFieldNames` namespace prefixes -/
   eagerRedactionPaths : List Str
   /-- `UnmarshalOrdered` (the JSON reader; not translated): `none` = the error return -/
@@ -49,6 +57,39 @@ structure Globals where
   redactFieldNamesFromPlanSummary : Str → Str
   /-- the stage walker `redactPipelineStage` (not translated): a parameter of the translated dispatch functions -/
   redactPipelineStage : J → Bool → List Str → Bool → Option J
+
+/-- a state of the globals in which every option is off and every library call fails: the base of the concrete examples -/
+def Globals.inert : Globals where
+  redactedString := []
+  redactNumbers := false
+  redactBooleans := false
+  redactIPs := false
+  shouldEncrypt := false
+  redactNamespaces := false
+  encryptionKey := none
+  redactedFieldsRegexp := none
+  Encrypt := fun _ _ => none
+  b64 := fun _ => []
+  ReadFile := fun _ => none
+  b64dec := fun _ => none
+  WriteFile := fun _ _ _ => true
+  Stat := fun _ => .otherErr
+  eagerRedactionPaths := []
+  UnmarshalOrdered := fun _ => none
+  redactFieldNamesFromPlanSummary := fun s => s
+  redactPipelineStage := fun _ _ _ _ => none
+
+/-- `info, err := os.Stat(p)`: the FileInfo (`none` = nil; else whether it is a directory) and the kind of error (0 = nil, 1 = not-exist, 2 = other) -/
+def statPair : StatRes → Option Bool × Nat
+  | .notExist => (none, 1)
+  | .otherErr => (none, 2)
+  | .ok d => (some d, 0)
+
+/-- `os.IsNotExist(err)` -/
+def isNotExist (e : Nat) : Bool := e == 1
+
+/-- `info.IsDir()`: a nil FileInfo panics -/
+def infoIsDir (i : Option Bool) : Option Bool := i
 
 /-- `xs[i]` -/
 def idx {α : Type} (xs : List α) (i : Int) : Option α :=
